@@ -865,3 +865,29 @@ func decidedByJoins(s *ssa.BasicBlock, entered func(*ssa.BasicBlock) (int, bool)
 	}
 	return 0, false
 }
+
+// paramByType: parameter idx of fn if its type is (a pointer to / slice of) the named type; otherwise
+// the first parameter of that type (a signature that gained or lost another parameter keeps working);
+// nil if there is none.
+func paramByType(fn *ssa.Function, idx int, typeName string) ssa.Value {
+	is := func(pv *ssa.Parameter) bool {
+		t := pv.Type()
+		if sl, ok := t.Underlying().(*types.Slice); ok {
+			t = sl.Elem()
+		}
+		n := namedOf(t)
+		return n != nil && n.Obj().Name() == typeName
+	}
+	if idx < len(fn.Params) && is(fn.Params[idx]) {
+		return fn.Params[idx]
+	}
+	for _, pv := range fn.Params {
+		if is(pv) {
+			return pv
+		}
+	}
+	if idx < len(fn.Params) {
+		return fn.Params[idx]
+	}
+	return nil
+}
